@@ -42,12 +42,13 @@ ver_iter_bound!(verdef_b24, VerDefIterator, u64, 24, 20, 8);
 ver_iter_bound!(verdaux_b16, VerDefAuxIterator, u16, 16, 8, 12);
 
 /// SysV chain walk on ARBITRARY chains (cycles of every length, self loops): terminates within nchain steps.
-/// Fixed-size table: header (nbucket, nchain arbitrary) + up to 5 words of buckets/chains; 2 symbols whose names never match.
+/// Fixed-size table: header (nbucket, nchain arbitrary) + up to 5 words of buckets/chains; 3 arbitrary symbols.
 #[kani::proof]
 #[kani::unwind(8)]
 pub fn sysv_cyclic_chains() {
     let tb: [u8; 28] = kani::any();
-    let sb: [u8; 32] = kani::any();
+    // three symbols (indexes 0..2) so that chains can cycle through two different symbols (1 -> 2 -> 1), not only self-loop
+    let sb: [u8; 48] = kani::any();
     let symtab: SymbolTable<'_, AnyEndian> = ParsingTable::new(AnyEndian::Little, Class::ELF32, &sb);
     let rb: [u8; 2] = [kani::any(), 0];
     let strtab = StringTable::new(&rb);
